@@ -60,14 +60,16 @@ def failing_action(rnd, kind, has_prefix):
         # a failing link followed by another link argument of the same action (which stands to its right)
         return rnd.choice(["cat-~X~/one/boom~E-~X~/one/after3~E", "cat-a-~X~/nosuchcmd~E-b-~X~/lit-z/after3~E"])
     if kind == "link_missing_resource":
-        return rnd.choice(["cat-~X~/-R/no/such/key.txt~E", "cat-~X~/-R/nokey.bin/-/ident~E"])
+        return rnd.choice(["cat-~X~/-R/no/such/key.txt~E", "cat-~X~/-R/nokey.bin/-/ident~E", "cat-~X~/-R/dir/metaonly.txt/-/ident~E",
+                           "cat-~X~/-R/dir/sub/-/cat-x~E"])
     raise ValueError(kind)
 
 
 def gen_case(rnd, g):
     kind = rnd.choice(KINDS)
     if kind == "missing_resource":
-        res = rnd.choice(["-R/no/such/key.txt", "nokey.txt", "-R/a/nokey.json"])
+        # absent keys; a key with metadata but no data; a directory
+        res = rnd.choice(["-R/no/such/key.txt", "nokey.txt", "-R/a/nokey.json", "dir/metaonly.txt", "-R/dir/metaonly.txt", "-R/dir/sub", "dir"])
         acts = [rnd.choice(["ident", "cat-x", "after1"]) for _ in range(rnd.randint(1, 2))]
         can = ["after%d" % (1 + i) for i in range(rnd.randint(0, 2))]
         q = res + "/-/" + "/".join(acts + can)
@@ -289,6 +291,13 @@ def setup():
     from lqv.checks import c01
 
     c01.setup_liquer()
+    # resources that exist but can not be read as data: a directory, a key with metadata only (what a recipe that
+    # failed, or was never made, looks like)
+    from liquer.store import get_store
+
+    st = get_store()
+    st.store("dir/sub/b.bin", b"\x00\x01bin", {})
+    st.store_metadata("dir/metaonly.txt", {"status": "recipe", "title": "never produced"})
 
 
 def run_shard(spec):
